@@ -5,6 +5,8 @@ package fingerproxy
 import (
 	"context"
 	"crypto/tls"
+	"flag"
+	"io"
 	"net/http"
 	"net/url"
 
@@ -39,4 +41,12 @@ func VerifDefaultProxyServer(ctx context.Context, handler http.Handler, tlsConfi
 
 func VerifDefaultReverseProxyHTTPHandler(to *url.URL, inj []reverseproxy.HeaderInjector) http.Handler {
 	return defaultReverseProxyHTTPHandler(to, inj)
+}
+
+// VerifParseCommandLine registers the binary's flags on a fresh flag set (initFlags, as Run does) and parses args.
+func VerifParseCommandLine(args []string) error {
+	flag.CommandLine = flag.NewFlagSet("fingerproxy", flag.ContinueOnError)
+	flag.CommandLine.SetOutput(io.Discard)
+	initFlags()
+	return flag.CommandLine.Parse(args)
 }
